@@ -143,6 +143,39 @@ Fixpoint adts_stream (fuel : nat) (st : asc) (data : bytes) (acc : list (bytes *
       end
   end.
 
+(* ---- histories on ONE ADTS object ----
+   The only state of ADTSImpl is its AudioSpecificConfig: SetASC unmarshals into it, Decode
+   overwrites it with the frame's configuration, the pointer returned by ASC() lets the caller
+   assign it, Encode reads it.  Results are values: a frame returned earlier is not affected by
+   later calls. *)
+Inductive adts_op : Type :=
+| OpSetASC (cfg : bytes)
+| OpEncode (raw : bytes)
+| OpDecode (data : bytes)
+| OpAssign (a : asc).           (* *adts.ASC() = a *)
+
+Inductive adts_out : Type :=
+| OutSet (a : asc) (r : res unit)
+| OutEnc (r : res bytes)
+| OutDec (a : asc) (r : res (bytes * bytes))
+| OutAssign (a : asc).
+
+Definition adts_step (st : asc) (op : adts_op) : asc * adts_out :=
+  match op with
+  | OpSetASC cfg => let (a, r) := asc_unmarshal st cfg in (a, OutSet a r)
+  | OpEncode raw => (st, OutEnc (adts_encode st raw))
+  | OpDecode d => let (a, r) := adts_decode st d in (a, OutDec a r)
+  | OpAssign a => (a, OutAssign a)
+  end.
+
+Fixpoint adts_run (st : asc) (ops : list adts_op) : asc * list adts_out :=
+  match ops with
+  | [] => (st, [])
+  | op :: rest =>
+      let (st1, o) := adts_step st op in
+      let (st2, os) := adts_run st1 rest in (st2, o :: os)
+  end.
+
 (* ---- specification: an ISO/IEC 13818-7 6.2 ADTS frame with one raw data block ---- *)
 Record adts_hdr := mk_hdr {
   h_id : N; h_layer : N; h_pa : N; h_profile : N; h_sfi : N; h_priv : N; h_ch : N; h_orig : N;
@@ -230,6 +263,35 @@ Fixpoint sweep_lo (hi : N) (n : nat) (lo : N) : list sx :=
 Definition str_of (r : res String.string) : sx :=
   match r with Ok s => SB (string_bytes s) | _ => s_panic end.
 
+(* case 11: a history of operations on one ADTS object *)
+Definition p_adts_op (s : sx) : option adts_op :=
+  match s with
+  | SL [SZ 0; SB cfg] => Some (OpSetASC cfg)
+  | SL [SZ 1; SB raw] => Some (OpEncode raw)
+  | SL [SZ 2; SB d] => Some (OpDecode d)
+  | SL [SZ 3; SZ o; SZ sr; SZ ch] => Some (OpAssign (mk_asc (Z.to_N o) (Z.to_N sr) (Z.to_N ch)))
+  | _ => None
+  end.
+Fixpoint p_adts_ops (l : list sx) : option (list adts_op) :=
+  match l with
+  | [] => Some []
+  | s :: t => match p_adts_op s, p_adts_ops t with
+              | Some o, Some os => Some (o :: os)
+              | _, _ => None
+              end
+  end.
+Definition obs_out (o : adts_out) : sx :=
+  match o with
+  | OutSet a (Ok _) => SL (SZ 0 :: s_asc a)
+  | OutSet a (Err e) => SL (SZ 1 :: sN e :: s_asc a)
+  | OutSet _ (Panic _) => s_panic
+  | OutEnc (Ok f) => s_ok [SB f]
+  | OutEnc (Err e) => s_err e
+  | OutEnc (Panic _) => s_panic
+  | OutDec a r => obs_dec (a, r)
+  | OutAssign a => SL (SZ 0 :: s_asc a)
+  end.
+
 (* blocks of case 10: the i-th block gets the crc_check value 0xC300 + i *)
 Fixpoint p_blocks (l : list sx) (i : N) : option (list (bytes * N)) :=
   match l with
@@ -288,6 +350,11 @@ Definition run_c11 (c : sx) : sx :=
           | Err e => SL [set; s_err e]
           | Panic _ => s_panic
           end
+      end
+  | SL [SZ 11; SL ops] =>
+      match p_adts_ops ops with
+      | Some ops => SL (map obs_out (snd (adts_run asc0 ops)))
+      | None => bad_case
       end
   | SL [SZ 10; SZ id; SZ pa; SZ profile; SZ sfi; SZ ch; SL blocks; SB tail] =>
       match p_blocks blocks 0 with
